@@ -433,6 +433,57 @@ fn family_octets(rep: &mut Report, g: &mut Gen, thorough: bool) {
     absorb(rep, g, outs, 0);
 }
 
+/// Large record sets: n records with one and the same owner name (the question's, or another),
+/// spread over one, two or three sections -- every n up to 300, and a few larger ones.
+fn rrset_pkt(n: usize, own: usize, split: usize) -> dnspkt::DNSPkt {
+    let q: Name = vec![b"www".to_vec(), b"example".to_vec(), b"com".to_vec()];
+    let owner: Name = match own {
+        0 => q.clone(),
+        1 => vec![b"set".to_vec(), b"example".to_vec(), b"com".to_vec()],
+        _ => vec![b"x".to_vec()],
+    };
+    let mut p = base_pkt(&q);
+    for i in 0..n {
+        let mut r = mk_rr(rd::T_A, &owner, &vec![], &vec![], 60);
+        r.rdata = Rdata::Raw(vec![10, (i >> 16) as u8, (i >> 8) as u8, i as u8]);
+        let section = match split {
+            0 => 0,
+            1 => i % 2,
+            _ => i % 3,
+        };
+        put(&mut p, section, &r);
+    }
+    p
+}
+
+fn family_rrset(rep: &mut Report, g: &mut Gen, thorough: bool) {
+    let mut ns: Vec<usize> = (1..=300).collect();
+    ns.extend(if thorough { vec![400, 511, 512, 513, 1000, 2000, 4000] } else { vec![512, 1000] });
+    let mut cases = vec![];
+    for n in ns {
+        for own in 0..3usize {
+            for split in 0..3usize {
+                if !thorough && n > 40 && n % 8 != 0 && !(120..=136).contains(&n) && !(250..=262).contains(&n) {
+                    continue;
+                }
+                cases.push((n, own, split));
+            }
+        }
+    }
+    let outs: Vec<Outcome> = cases
+        .par_iter()
+        .map(|(n, own, split)| {
+            let case = json!({"engine":"c14","family":"rrset","n":n,"owner":own,"split":split});
+            let mut o = judge_structured(&rrset_pkt(*n, *own, *split), "rrset", case);
+            if let Some(v) = o.viol.take() {
+                o.viol = Some(v.sig("records", if *n > 127 { "over127" } else { "le127" }));
+            }
+            o
+        })
+        .collect();
+    absorb(rep, g, outs, 0);
+}
+
 pub fn boundary_pkt(target: usize, follow: usize) -> dnspkt::DNSPkt {
     // header 12 + question (root, 5 octets) = 17; each filler = 1 (root owner) + 10 + rdlen
     let mut p = base_pkt(&vec![]);
@@ -669,6 +720,12 @@ pub fn run(tier: &str, replay: Option<Value>) -> ! {
                     rep.violation(v.sig("family", "bytes"));
                 }
             }
+            Some("rrset") => {
+                let p = rrset_pkt(case["n"].as_u64().unwrap_or(1) as usize, case["owner"].as_u64().unwrap_or(0) as usize, case["split"].as_u64().unwrap_or(0) as usize);
+                if let Some(v) = judge_structured(&p, "rrset", case.clone()).viol {
+                    rep.violation(v);
+                }
+            }
             Some("octets") => {
                 let p = octets_pkt(case["octet"].as_u64().unwrap_or(0) as u8, case["q"].as_u64().unwrap_or(0) as usize, case["n"].as_u64().unwrap_or(0) as usize, case["type"].as_u64().unwrap_or(5) as u16);
                 if let Some(v) = judge_structured(&p, "octets", case.clone()).viol {
@@ -700,6 +757,7 @@ pub fn run(tier: &str, replay: Option<Value>) -> ! {
     family_rdata_ref(&mut rep, &mut g);
     family_chain(&mut rep, &mut g);
     family_octets(&mut rep, &mut g, thorough);
+    family_rrset(&mut rep, &mut g, thorough);
     let e2 = g.evals;
     family_boundary(&mut rep, &mut g, thorough);
     let e3 = g.evals;
@@ -710,7 +768,7 @@ pub fn run(tier: &str, replay: Option<Value>) -> ! {
     let e5 = g.evals;
     rep.cov("evaluations", g.evals);
     rep.cov("distinct_nontrivial", g.classes.len() as u64);
-    rep.cov("rule", "structured: every (question, section, type, owner, rdata-name[s]) over names of depth<=2 (thorough 3) on labels {a,b,63x}; every 3-record sequence over an 8-record alphabet x section split; for every name-carrying type and name slot a new name written in record data and one of 5 suffix shapes of it used by a second record (owner or either rdata slot, 7 types) x 3 questions x 3 section pairs; names extending one another label by label to every chain length 1..127 (3 shapes); for every octet value 0..255 five names made of that octet (labels of 1, 2, 63 octets, up to the longest legal name of 255 wire octets) x question/owner x record data x record type (quick 2, thorough 6); name first written at every offset 0x3fe0..0x4020, 0xff80..0xffb0 (+ sweep) x 5 follow-ups; header/EDNS product. bytes: every additional section of <=3 records over {2 address records, 4 differing OPT records} (several OPT records, OPT between other records) encoded by the reference encoder; base encodings x every offset x byte values (quick 14 boundary values, thorough all 256) + own-offset + every truncation. distinct = (family, size class, pointer count / acceptance shape) classes");
+    rep.cov("rule", "structured: every (question, section, type, owner, rdata-name[s]) over names of depth<=2 (thorough 3) on labels {a,b,63x}; every 3-record sequence over an 8-record alphabet x section split; for every name-carrying type and name slot a new name written in record data and one of 5 suffix shapes of it used by a second record (owner or either rdata slot, 7 types) x 3 questions x 3 section pairs; names extending one another label by label to every chain length 1..127 (3 shapes); record sets of n records with one owner name (n = 1..300 -- quick: every n to 40, around 128 and 256, every 8th otherwise -- and up to 4000) x 3 owners x 1-3 sections; for every octet value 0..255 five names made of that octet (labels of 1, 2, 63 octets, up to the longest legal name of 255 wire octets) x question/owner x record data x record type (quick 2, thorough 6); name first written at every offset 0x3fe0..0x4020, 0xff80..0xffb0 (+ sweep) x 5 follow-ups; header/EDNS product. bytes: every additional section of <=3 records over {2 address records, 4 differing OPT records} (several OPT records, OPT between other records) encoded by the reference encoder; base encodings x every offset x byte values (quick 14 boundary values, thorough all 256) + own-offset + every truncation. distinct = (family, size class, pointer count / acceptance shape) classes");
     rep.cov("exhaustive", true);
     rep.cov("parts", json!({"single": e1, "multi": e2 - e1, "boundary": e3 - e2, "header": e4 - e3, "bytes": e5 - e4}));
     let mut samples = pick_samples(&g.samples, 4, rep.seed);
